@@ -315,10 +315,10 @@ package tax
 //
 // registry lookups: results are functions of their arguments, nothing is written (A-REGISTRY)
 //@ func RegimeDefFor(country) (r)
-//@   trusted A-REGISTRY: read-only lookup in the regime register; registered definitions have no nil category or rate entries
+//@   trusted A-REGISTRY: read-only lookup in the regime register; registered definitions have no nil category, rate or value entries
 //@   pure
 //@   function
-//@   ensures r != nil ==> regimeCatsOK(r)
+//@   ensures r != nil ==> regimeRatesOK(r)
 //@ func RegimeDefFromContext(ctx) (r)
 //@   trusted A-REGISTRY: reads the regime stored in the context; registered definitions have no nil category or rate entries
 //@   pure
@@ -428,3 +428,31 @@ package tax
 //@   ensures [inforce] err == nil ==> (forall q int :: selects(category, old(c.Rate), q) && !category.Rates[q].Exempt && len(category.Rates[q].Values) > 0 ==> c.Percent != nil && (exists i int :: 0 <= i && i < len(category.Rates[q].Values) && *c.Percent == category.Rates[q].Values[i].Percent && surchargeOf(c, category.Rates[q].Values[i]) && applies(category.Rates[q].Values[i], tags, c.Ext) && inForce(category.Rates[q].Values[i], date) && (forall j int :: 0 <= j && j < i ==> !(applies(category.Rates[q].Values[j], tags, c.Ext) && inForce(category.Rates[q].Values[j], date)))))
 //@   ensures [unavailable] (forall q int :: selects(category, old(c.Rate), q) && !category.Rates[q].Exempt && len(category.Rates[q].Values) > 0 && (forall i int :: 0 <= i && i < len(category.Rates[q].Values) ==> !(applies(category.Rates[q].Values[i], tags, c.Ext) && inForce(category.Rates[q].Values[i], date))) ==> err != nil)
 //@   loop 1 invariant c.Ext != nil && c.Rate == old(c.Rate) && c.Percent == old(c.Percent) && c.Surcharge == old(c.Surcharge)
+//
+// the chain from the calculator's date to the rate value: prepareLines hands the calculator's
+// country, tags and date to every combo; a combo is calculated against the regime registered
+// for its own country when it differs from the document's, else the document's; within the
+// regime its category is the first with its code; prepareRate (above) does the rest
+//@ pred firstCat(r *RegimeDef, code cbc.Code, i int) bool = 0 <= i && i < len(r.Categories) && r.Categories[i].Code == code && (forall j int :: 0 <= j && j < i ==> r.Categories[j].Code != code)
+//@ pred regimeRatesOK(r *RegimeDef) bool = regimeCatsOK(r) && (forall i int, j int :: 0 <= i && i < len(r.Categories) && 0 <= j && j < len(r.Categories[i].Rates) ==> valuesOK(r.Categories[i].Rates[j]))
+//@ func (c *Combo) calculateForRegime(r, tags, date) (err)
+//@   requires c != nil && r != nil && regimeRatesOK(r)
+//@   modifies Combo.retained, Combo.Ext, Combo.Percent, Combo.Surcharge, map(Extensions)
+//@   footprint c
+//@   ensures [category] err == nil ==> (exists i int :: firstCat(r, c.Category, i) && c.retained == r.Categories[i].Retained)
+//@   ensures [undefined] (forall i int :: 0 <= i && i < len(r.Categories) ==> r.Categories[i].Code != c.Category) ==> err != nil
+//@   ensures [inforce] err == nil ==> (forall ci int, q int :: firstCat(r, c.Category, ci) && selects(r.Categories[ci], old(c.Rate), q) && !r.Categories[ci].Rates[q].Exempt && len(r.Categories[ci].Rates[q].Values) > 0 ==> c.Percent != nil && (exists i int :: 0 <= i && i < len(r.Categories[ci].Rates[q].Values) && *c.Percent == r.Categories[ci].Rates[q].Values[i].Percent && applies(r.Categories[ci].Rates[q].Values[i], tags, c.Ext) && inForce(r.Categories[ci].Rates[q].Values[i], date) && (forall j int :: 0 <= j && j < i ==> !(applies(r.Categories[ci].Rates[q].Values[j], tags, c.Ext) && inForce(r.Categories[ci].Rates[q].Values[j], date)))))
+//
+//@ func (c *Combo) calculate(country, tags, date) (err)
+//@   requires c != nil
+//@   modifies Combo.Country, Combo.retained, Combo.Ext, Combo.Percent, Combo.Surcharge, map(Extensions)
+//@   footprint c
+//@   let own = ite(old(c.Country) == "" || old(c.Country) == country, country, old(c.Country))
+//@   at-call Combo).calculateForRegime assert [regime] $arg1 == RegimeDefFor(l10n.Code(own)) && $arg2 == tags && $arg3 == date
+//@   ensures [noregime] RegimeDefFor(l10n.Code(own)) == nil ==> err == nil && c.Percent == old(c.Percent)
+//@   ensures [override] c.Country == ite(old(c.Country) == country, "", old(c.Country))
+//
+//@ func (tc *TotalCalculator) prepareLines(taxLines) (err)
+//@   requires tc != nil && taxLinesOK(taxLines) && tc.zero.exp <= 1000
+//@   modifies *
+//@   at-call Combo).calculate assert [date] $arg1 == tc.Country && $arg2 == tc.Tags && $arg3 == tc.Date
